@@ -1,6 +1,6 @@
 (* Property C20 — HTML views are well-formed and never let data break out of its text position.
    Only statements and [exact]; proofs live in Proofs/Html*.v. *)
-From PG Require Import Common.Tactics Gen.HtmlStyles Model.Html Model.HtmlDoc Proofs.HtmlProofs Proofs.HtmlTreeView Proofs.HtmlDocProofs.
+From PG Require Import Common.Tactics Gen.HtmlStyles Model.Html Model.HtmlDoc Proofs.HtmlProofs Proofs.HtmlTreeView Proofs.HtmlDocProofs Model.HtmlCtl Proofs.HtmlCtlProofs.
 From Coq Require Import NArith.
 Local Open Scope N_scope.
 
@@ -131,3 +131,42 @@ Print Assumptions C20_document_texts.
 Theorem C20_head_data_independent : forall o a b, same_shape a b -> head_of o a = head_of o b.
 Proof. exact head_data_independent. Qed.
 Print Assumptions C20_head_data_independent.
+
+(* The JavaScript side of the update paths (Html.escape(s, javascript_str=True)): the double-quoted literal written for any string,
+   followed by anything, is read by a JavaScript string lexer as exactly that string -- it ends at its own closing quote (safe) and
+   decodes to the string (invertible); its body has no raw line terminator. *)
+Theorem C20_escape_js_literal : forall s rest, lex_js_string (js_literal s ++ rest) = Some (s, rest).
+Proof. exact js_literal_lex. Qed.
+Print Assumptions C20_escape_js_literal.
+
+Theorem C20_escape_js_no_newline : forall s, forallb (fun c => negb ((c =? c_cr) || (c =? c_lf))) (escape_js s) = true.
+Proof. exact escape_js_no_newline. Qed.
+Print Assumptions C20_escape_js_no_newline.
+
+(* The update scripts: a prefix that depends on the element id only, the literal, a semicolon; textContent receives the text
+   unchanged, innerHTML receives markup that parses back to the tree that was built. *)
+Theorem C20_update_text_script : forall id s,
+  update_text_script id s = (js_prefix id ++ s_js_text) ++ js_literal s ++ [c_semi] /\
+  lex_js_string (js_literal s ++ [c_semi]) = Some (s, [c_semi]).
+Proof. exact update_text_script_lex. Qed.
+Print Assumptions C20_update_text_script.
+
+Theorem C20_update_inner_html_script : forall id ts, Forall names_ok ts ->
+  update_inner_html_script id ts = (js_prefix id ++ s_js_inner) ++ js_literal (render_list ts) ++ [c_semi] /\
+  exists markup, lex_js_string (js_literal (render_list ts) ++ [c_semi]) = Some (markup, [c_semi]) /\
+                 parse_html markup = Some (normalize ts).
+Proof. exact update_inner_html_script_lex. Qed.
+Print Assumptions C20_update_inner_html_script.
+
+(* The controls (Label, Badge, Tooltip, LabelGroup, ProgressBar, TabControl with labels or values as tab contents): well formed,
+   and only the controls' and the tree view's vocabulary, whatever the texts, tooltips, names and shown values are. *)
+Theorem C20_controls_well_formed : forall c, parse_html (render (ctl_node c)) = Some (normalize [ctl_node c]).
+Proof. exact ctl_well_formed. Qed.
+Print Assumptions C20_controls_well_formed.
+
+Theorem C20_controls_no_injection : forall c,
+  exists d, parse_html (render (ctl_node c)) = Some d /\
+            forall n, In n d -> incl (tags_of n) (vocabulary_tags ++ control_tags) /\ incl (optnames_of n) vocabulary_opts
+                             /\ incl (attrnames_of n) (vocabulary_attrs ++ control_attrs).
+Proof. exact ctl_no_injection. Qed.
+Print Assumptions C20_controls_no_injection.
